@@ -318,6 +318,29 @@ pub fn run(rep: &mut Report, cfg: &Cfg, group: Group, check: &'static str) {
             }
         }
 
+        // ---- 1b. every constant named in the emulator's source (and its neighbours) as either operand
+        if width != Sz::B && probe.mn != Mn::Divxu {
+            let dict = crate::util::source_dictionary();
+            for v in dict.iter() {
+                work += 1;
+                if !cfg.mine(work) {
+                    continue;
+                }
+                for dlt in [0u32, 1, 0xffff_ffff] {
+                    let x = v.wrapping_add(dlt) & width.mask();
+                    let f = shard_fields(frng);
+                    let (other, ccr) = (gen::data(&mut r.rng, width), r.rng.u8());
+                    r.reg_case(pat, f, x, other, ccr);
+                    if two {
+                        let f = shard_fields(frng);
+                        let ccr = r.rng.u8();
+                        r.reg_case(pat, f, other, x, ccr);
+                    }
+                }
+            }
+            r.rep.count("source_dictionary_values", dict.len() as u64);
+        }
+
         // ---- 2. every register number in every field (incl. same register), pool data
         let pool_d = gen::data_pool(dsz);
         let pool_s = gen::data_pool(ssz);
